@@ -3,6 +3,9 @@ package ecdsa
 import (
 	"bytes"
 	"errors"
+	"fmt"
+
+	"github.com/fxamacker/cbor/v2"
 
 	"github.com/taurusgroup/multi-party-sig/pkg/math/curve"
 )
@@ -15,6 +18,25 @@ type Signature struct {
 // EmptySignature returns a new signature with a given curve, ready to be unmarshalled.
 func EmptySignature(group curve.Curve) Signature {
 	return Signature{R: group.NewPoint(), S: group.NewScalar()}
+}
+
+// UnmarshalCBOR restores a signature (into a value created with EmptySignature) and refuses
+// values that no signature can have: R the identity, or s zero.
+func (sig *Signature) UnmarshalCBOR(data []byte) (err error) {
+	// a null where the point or scalar is expected makes the CBOR decoder panic
+	defer func() {
+		if rec := recover(); rec != nil {
+			err = fmt.Errorf("ecdsa: malformed signature: %v", rec)
+		}
+	}()
+	type plain Signature // same fields, no UnmarshalCBOR
+	if err = cbor.Unmarshal(data, (*plain)(sig)); err != nil {
+		return err
+	}
+	if sig.R == nil || sig.S == nil || sig.R.IsIdentity() || sig.S.IsZero() {
+		return errors.New("ecdsa: signature with identity R or zero s")
+	}
+	return nil
 }
 
 // Verify is a custom signature format using curve data.
